@@ -62,7 +62,7 @@ fn main() {
                 write_evidence: std::env::var("VERIF_NO_EVIDENCE").is_err(),
             })
         }
-        Some("worker") if args.len() >= 9 => {
+        Some("worker") if args.len() >= 10 => {
             simalloc::init();
             let Some(prop) = Prop::from_id(&args[2]) else { std::process::exit(usage()) };
             orch::cmd_worker(orch::WorkerArgs {
@@ -71,8 +71,9 @@ fn main() {
                 directed: range(&args[4]),
                 seeded: range(&args[5]),
                 oom: range(&args[6]),
-                det_sample: args[7].parse().expect("det sample"),
-                out: args[8].clone(),
+                subsets: range(&args[7]),
+                det_sample: args[8].parse().expect("det sample"),
+                out: args[9].clone(),
             })
         }
         Some("replay") if args.len() >= 3 => orch::cmd_replay(&args[2]),
@@ -100,6 +101,7 @@ fn main() {
                 "directed" => orch::Mode::Directed,
                 "seeded" => orch::Mode::Seeded,
                 "oom" => orch::Mode::Oom,
+                "subsets" => orch::Mode::Subsets,
                 _ => std::process::exit(usage()),
             };
             let idx: u64 = args[4].parse().expect("idx");
